@@ -283,7 +283,7 @@ func c14NamespacedMembers(c *wk.Ctx) {
 }
 
 func runC14(c *wk.Ctx) {
-	c.Meta("rule", "(a) generated non-recursive scope trees (nested scopes whose object IDs collide with outer ones, references under properties / lists / maps / one-ofs, 0..2 external namespaces, also external objects with the same ID as a local one) built through the constructors; the external namespaces are applied in EVERY order (all permutations) on separate instances; the same tree with every reference replaced by the object the harness' own lexical resolution finds (no references, no namespaces needed) is built as the comparison schema. Inputs: valid by construction, perturbed, with a property dropped. Oracle: identical accept/reject verdicts and equal unserialized values (and the reference interpreter's verdict), for every application order; before, between and after the ApplyNamespace calls ValidateReferences()==nil exactly when every reference enumerated through the public accessors reports ObjectReady(), and applying one namespace leaves the link state and target of references to other namespaces untouched. (b) the same for scopes rebuilt from their own description (UnserializeScope + ApplySelf). (c) recursive and mutually recursive scopes (hand-written shapes) on finite inputs of nesting depth 1..500 and on non-map values. distinct = hash(scope, namespaces, input); non-trivial = the tree has a nested scope or an external namespace")
+	c.Meta("rule", "(a) generated non-recursive scope trees (nested scopes whose object IDs collide with outer ones, references under properties / lists / maps / one-ofs, 0..2 external namespaces, also external objects with the same ID as a local one) built through the constructors; the external namespaces are applied in EVERY order (all permutations) on separate instances; the same tree with every reference replaced by the object the harness' own lexical resolution finds (no references, no namespaces needed) is built as the comparison schema. Inputs: valid by construction, perturbed, with a property dropped. Oracle: identical accept/reject verdicts and equal unserialized values (and the reference interpreter's verdict), for every application order; before, between and after the ApplyNamespace calls ValidateReferences()==nil exactly when every reference enumerated through the public accessors reports ObjectReady(), and applying one namespace leaves the link state and target of references to other namespaces untouched. (b) the same for scopes rebuilt from their own description (UnserializeScope + ApplySelf). (c) recursive and mutually recursive scopes (hand-written shapes) on finite inputs of nesting depth 1..500 and on non-map values. distinct = hash(scope, namespaces, input); non-trivial = the tree has a nested scope or an external namespace (c) also: ValidateReferences()==nil exactly when every reference is ready, on the hand-written recursive scopes (struct-mapped ones included).")
 	c.Meta("assumptions", []string{"references directly under a one-of are only generated for the self namespace (the SDK inspects member properties while linking)",
 		"external namespace objects contain no references themselves"})
 	c.Floor("scopes", 300)
